@@ -97,15 +97,25 @@ def run_c36(prop):
     v.notes.append("faithful model (recovery replays only the remaining log) violates Recovered at design level")
     L = 7 if quick else 8
     r = tlc("RocksRecovery", base % (L, "log") + "INVARIANT Case\nCHECK_DEADLOCK FALSE\n", "rr_gen", workers=1, timeout=3000,
-            simulate=(250 if quick else 6000), depth=L + 1, tlc_seed=vlib.seed())
+            simulate=(120 if quick else 6000), depth=L + 1, tlc_seed=vlib.seed())
     if r.error:
         raise vlib.ToolError("RocksRecovery GEN: " + r.error)
     cases = extract_cases(r.stdout)
+    cases = cases[:: max(1, len(cases) // (250 if quick else 30000))]
+    v.add_tlc(r, "RocksRecovery GEN (random walks): %d histories" % len(cases))
+    # transition coverage of the (disk, memory) state graph: one history per transition
+    rc = tlc("RocksRecovery", 'CONSTANTS MaxIdx = 3\nMaxOps = 12\nRecoverFrom = "log"\nINIT Init\nNEXT CovNext\nVIEW CovView\nCHECK_DEADLOCK FALSE\n', "rr_cov", workers=1, timeout=3000)
+    if rc.error or rc.violated:
+        raise vlib.ToolError("RocksRecovery coverage: %s %s" % (rc.error, rc.violated))
+    cov = extract_cases(rc.stdout)
+    cov = [c for c in cov if c["hist"][-1]["op"] == "reopen"]     # only histories that end in a recovery check anything new
+    if quick:
+        cov = cov[vlib.seed() % 3:: max(1, len(cov) // 600)]
+    v.add_tlc(rc, "RocksRecovery transition coverage: %d histories ending in a reopen" % len(cov))
+    cases = cov + cases
     ops = {h["op"] for c in cases for h in c["hist"]}
     if not {"append", "vote", "apply", "build", "purge", "install", "conflict", "reopen"} <= ops:
         raise vlib.ToolError("RocksRecovery GEN missed operations: %s" % sorted(ops))
-    cases = cases[:: max(1, len(cases) // (1500 if quick else 30000))]
-    v.add_tlc(r, "RocksRecovery GEN: %d histories" % len(cases))
     cp, rp = os.path.join(w, "cases.ndjson"), os.path.join(w, "report.json")
     write_ndjson(cp, cases)
     run_harness("vhraft", ["rocks-replay", cp, rp], features="persistent", timeout=3000)
